@@ -1,4 +1,5 @@
 import Proofs.Chain
+import Proofs.Rates
 import Pegnet.Generated.Facts
 /-
   C12 — Recorded rates follow the winning records and are immutable.
@@ -71,6 +72,34 @@ example : inBand 6600000000000 6000000000000 1 1 = true := by decide
 example : inBand 6600000000001 6000000000000 1 1 = false := by decide
 example : inBand 75 100 25 2 = true ∧ inBand 74 100 25 2 = false ∧ inBand 125 100 25 2 = true ∧ inBand 126 100 25 2 = false := by decide
 
+/-- **`rates_recorded_exact`.** Whenever the grading step of a block makes rates available — for
+    every block content and every answer of the grading libraries — the rate table grows by
+    exactly the rows of the selected asset list (`rateRows`): one `p<NAME>` row per non-PEG asset in
+    the winner's order with the winner's value, then the PEG row priced by the phase of the height
+    (`pegPrice`: 0, the equation over the committed supply, or the winner's PEG quote). The
+    selected list (`selectedAssets`) is the winning OPR's before 2.0, and from 2.0 on the winning
+    OPR's list filtered against the winning SPR's by the band rule of the era (`assetRatesV0`
+    1 % / 0.1 %, `assetRates` 10 % / 25 %-or-zero). Nothing else is written to the rate table. -/
+theorem rates_recorded_exact {P : Params} {c : DB} {b : Block} {s s' : DB}
+    (hr : gradeAndRates P c b s = .ok (.cont true) s') :
+    ∃ sel, selectedAssets P b = some sel ∧
+      s'.rates = s.rates ++ rateRows P c b.height sel (if b.height < P.act.v20 then phaseAt P b.height else .floating) :=
+  gradeAndRates_records_exact hr
+
+/-- `InsertRates` itself: exactly `rateRows`, nothing else touched -/
+theorem insert_rates_exact {P : Params} {c : DB} {h : Nat} {assets : List (String × Nat)} {phase : Phase} {s s' : DB}
+    (hr : insertRates P c h assets phase s = .ok () s') :
+    s' = { s with rates := s.rates ++ rateRows P c h assets phase } := insertRates_ok hr
+
+/-- non-vacuity: a winning OPR with two assets and a PEG quote in the floating phase -/
+def xP : Params :=
+  { act := ⟨0,0,0,0,0,0,0,0,0,0,0,0,0,0,0,0,0⟩, tickerMax := 63, tickerNames := [], oneWaySet := [],
+    snapshotRate := 144, perBlockHolders := 0, perBlockDevs := 0, bankBase := 0, avgPeriod := 8, avgRequired := 4,
+    syncVersion := 2, devs := [], «mint» := [], burnAddr := "", oldBurnAddr := "", mintAddr := "", coinbaseAddr := "", zeroAddr := "" }
+example : rateRows xP {} 7 [("PEG", 5), ("USD", 100), ("EUR", 110)] .floating =
+    [{ height := 7, token := "pUSD", value := 100 }, { height := 7, token := "pEUR", value := 110 }, { height := 7, token := "PEG", value := 5 }] := by
+  decide
+
 end Pegnet.C12
 
 #print axioms Pegnet.C12.rates_immutable
@@ -80,3 +109,5 @@ end Pegnet.C12
 #print axioms Pegnet.C12.no_winners_no_rates_v2
 #print axioms Pegnet.C12.band_rule_step
 #print axioms Pegnet.C12.band_constants_match_source
+#print axioms Pegnet.C12.rates_recorded_exact
+#print axioms Pegnet.C12.insert_rates_exact
